@@ -17,6 +17,8 @@ RULE = (
     "error arguments (ValueError at definition). Each misuse is paired with positive controls (the nearest legal program) "
     "that must be accepted. Monitor: exception class AND moment (definition vs. call) and zero body events before rejection. "
     "Non-trivial = every program (each is a distinct misuse/control); exhaustive over the stated product."
+    ' Reserved keywords are also passed to callables without ** (and with defaults / *rest) under a precondition th'
+    'at reads _ARGS/_KWARGS: TypeError, never a ViolationError on the shadowed placeholder.'
 )
 ASSUMPTIONS = ["invariant conditions with defaulted extra parameters and enabled=False decorators are silent zones"]
 
